@@ -42,6 +42,7 @@ def main(argv):
         common.import_impl()
         mod = importlib.import_module("props." + pid)
         translate.regenerate(ctx)
+        ctx.extra_props = list(getattr(mod, "EXTRA_PROPS", []))
         common.prove(ctx)
         if hasattr(mod, "correspond"):
             mod.correspond(ctx)
@@ -49,7 +50,7 @@ def main(argv):
             mod.search(ctx)
         if tier == "thorough":
             # independent re-check of the compiled proofs of this property (and of the helper modules it names)
-            common.leancheck(ctx, list(getattr(mod, "LEANCHECK", [])) + ["Props." + pid])
+            common.leancheck(ctx, list(getattr(mod, "LEANCHECK", [])) + ["Props." + ns for ns in [pid] + ctx.extra_props])
         ctx.cov["rule"] = getattr(mod, "RULE", "")
         ctx.notes = list(getattr(mod, "ASSUMPTIONS", []))
         return common.finish(ctx)
